@@ -43,6 +43,12 @@ fn parse_line(line: &str) -> Result<Option<(IpAddr, HashSet<DomainName>)>, Error
     let mut new_names = HashSet::new();
 
     for (i, octet) in line.char_indices() {
+        // nothing after a `#` is looked at: a comment may hold any
+        // text, including non-ASCII characters
+        if let State::CommentToEndOfLine = state {
+            break;
+        }
+
         if !octet.is_ascii() {
             return Err(Error::ExpectedAscii { octet });
         }
